@@ -86,7 +86,21 @@ def _same_reply(a: Any, b: Any) -> bool:
         and ea.get('message') == eb.get('message') and ('data' in ea) == ('data' in eb)
 
 
+def systematic(tier: str):
+    """Duplicate ids at every ordered pair of positions, for every batch length 2..5, both dispatchers."""
+    reps = 3 if tier == 'quick' else 20
+    for n in range(2, 6):
+        for i in range(n):
+            for j in range(n - 1):
+                for srv in range(2):
+                    for _ in range(reps):
+                        yield {'doc.shape': [5], 'doc.len': [n - 1], 'doc.dup_id': [5], 'doc.dup.i': [i],
+                               'doc.dup.j': [j], 'srv.async': [srv], 'doc.foreign_element': [0],
+                               'doc.all_notifications': [0], 'el.notification': [0] * 5}
+
+
 FAMILIES = {'server.exactly_once': fam_exactly_once}
+SYSTEMATIC = {'server.exactly_once': systematic}
 PLAN = {
     'quick': {'server.exactly_once': 120000},
     'thorough': {'server.exactly_once': 100000},
